@@ -15,7 +15,7 @@ int zvt_lock(pthread_mutex_t* m); int zvt_unlock(pthread_mutex_t* m); int zvt_wa
 #define ZSTD_pthread_mutex_unlock(a) zvt_unlock(a)
 #define ZSTD_pthread_cond_wait(a, b) zvt_wait((a), (b))
 #define ZSTD_pthread_mutex_init(a, b) zvt_minit(a)
-#include "../../repo/lib/dictBuilder/cover.c"
+#include "cover.c"   /* found through -I<repo>/… (tools/build.py), so that ZV_REPO can point at another checkout */
 
 extern void zvt_event(const char* fmt, unsigned long long a, unsigned long long b);
 extern int zvt_is_dispatcher(void); extern void zvt_perturb(void);
